@@ -526,7 +526,7 @@ func finish(ck *Check, tier string, seed int64, m *Result, start time.Time) int 
 		"exhaustive":          m.Exhaustive && len(m.Broken) == 0,
 		"spaces":              m.Spaces,
 		"counters":            m.Counters,
-		"notes":               m.Notes,
+		"notes":               append([]string{}, m.Notes...),
 		"known_findings_matched": m.Known,
 		"trusted_base":        ck.Trusted,
 	}
